@@ -235,7 +235,7 @@ def rule_pa_case(cx, rep, port):
     t = node_text(ls, 3000)
     ok = ("'(?i)(?:^| ){}(?= )'" in t) if port == 'py' else ("'(?= )', 'ig')" in t and "'(?:^| )'" in t)
     rep.decide(ok, 'locate_statements pattern', ls, 'statement keywords: case-insensitive, preceded by start/space, followed by a space', 'the statement pattern is no longer case-insensitive with word boundaries on both sides')
-    okspace = ("statement.replace(' ', ' *')" in t) or ("replace_all(statement, ' ', ' *')" in t)
+    okspace = any(isinstance(c, ast.Call) and [const_value(a) for a in c.args][-2:] == [' ', ' *'] and ((isinstance(c.func, ast.Attribute) and c.func.attr == 'replace') or dotted(c.func) == 'replace_all') for c in ast.walk(ls))
     rep.decide(okspace, 'multi-word keywords', ls, 'spaces inside multi-word keywords match any number of spaces', 'multi-word keywords no longer tolerate repeated spaces')
 
 
@@ -288,7 +288,9 @@ def rule_pa_groups(cx, rep, port):
     srt = [c for c in walk_no_nested(ls) if isinstance(c, ast.Call) and (dotted(c.func) == 'sorted' or (isinstance(c.func, ast.Attribute) and c.func.attr == 'sort'))]
     rep.decide(len(srt) == 1, 'order-free location', srt[0] if srt else ls, 'located statements are ordered by position, so clause order is free', 'located statements are not sorted by position')
     dupchk = [r for r in walk_no_nested(ls) if isinstance(r, ast.Raise)]
-    rep.decide(len(dupchk) == 1 and 'len(matches) > 1' in node_text(dupchk[0].parent.test), 'duplicate statement', dupchk[0] if dupchk else ls, 'a statement occurring twice is a parsing error', 'a repeated statement is no longer rejected')
+    def more_than_one(t):
+        return isinstance(t, ast.Compare) and len(t.ops) == 1 and isinstance(t.left, ast.Call) and dotted(t.left.func) == 'len' and ((isinstance(t.ops[0], ast.Gt) and const_value(t.comparators[0]) == 1) or (isinstance(t.ops[0], ast.GtE) and const_value(t.comparators[0]) == 2))
+    rep.decide(len(dupchk) == 1 and isinstance(dupchk[0].parent, ast.If) and dupchk[0] in dupchk[0].parent.body and more_than_one(dupchk[0].parent.test), 'duplicate statement', dupchk[0] if dupchk else ls, 'a statement occurring twice is a parsing error', 'a repeated statement is no longer rejected')
     # separate_actions: join subtypes collapse to JOIN
     sa = p.func(mod, 'separate_actions')
     t = node_text(sa, 6000)
@@ -944,14 +946,65 @@ def rule_pa_asc(cx, rep, port):
     desc = [s for s in sites if s.pattern and re.sub(r'^\(\?i\)', '', s.pattern) == ' DESC *$']
     rep.decide(len(asc) == 1 and (asc[0].ignorecase or asc[0].pattern.startswith('(?i)')), 'ASC', asc[0].node if asc else b, 'a trailing ASC is dropped (any case)', 'a trailing ASC is not removed case-insensitively')
     rep.decide(len(desc) == 1 and (desc[0].ignorecase or desc[0].pattern.startswith('(?i)')), 'DESC', desc[0].node if desc else b, 'a trailing DESC is recognised (any case)', 'a trailing DESC is not recognised case-insensitively')
-    inner = [n for n in b.body if isinstance(n, ast.If)]
-    ok = False
-    if len(inner) == 1:
-        t = inner[0].test
-        tr = [s for s in inner[0].body if isinstance(s, ast.Assign) and node_text(s.targets[0]) == "statement_params['reverse']"]
-        fa = [s for s in inner[0].orelse if isinstance(s, ast.Assign) and node_text(s.targets[0]) == "statement_params['reverse']"]
-        ok = node_text(t) == 'new_span != span' and len(tr) == 1 and is_true(tr[0].value) and len(fa) == 1 and is_false(fa[0].value)
-    rep.decide(ok, 'reverse flag', inner[0] if inner else b, 'reverse = True iff a trailing DESC was removed', 'the reverse flag is no longer "True iff a trailing DESC was removed"')
+    # reverse flag: on every path through the block, what is stored under 'reverse' equals "removing a trailing DESC changed the text"
+    from .. import pathsem
+
+    def desc_call(e):
+        """the subject text when e is the DESC-removing substitution, else None"""
+        if isinstance(e, ast.Call):
+            consts = [const_value(a) for a in e.args] + [a.args[0].value for a in e.args if isinstance(a, ast.Call) and dotted(a.func) == '__regex__']
+            if any(isinstance(c, str) and c.upper().endswith(' DESC *$') for c in consts):
+                d = dotted(e.func) or ''
+                subj = e.args[2] if d in ('re.sub', 're.subn') and len(e.args) >= 3 else (e.func.value if isinstance(e.func, ast.Attribute) and e.func.attr in ('replace', 'sub') else None)
+                return subj
+        return None
+
+    def changed_test(e):
+        """+1 for `desc(x) != x`, -1 for `desc(x) == x`, 0 otherwise"""
+        if isinstance(e, ast.Compare) and len(e.ops) == 1 and isinstance(e.ops[0], (ast.NotEq, ast.Eq)):
+            for a, b_ in ((e.left, e.comparators[0]), (e.comparators[0], e.left)):
+                subj = desc_call(a)
+                if subj is not None and ast.dump(subj) == ast.dump(b_):
+                    return 1 if isinstance(e.ops[0], ast.NotEq) else -1
+        return 0
+    ps = pathsem.paths_of_block(b.body)
+    if ps is None:
+        rep.undecided('reverse flag', b, 'ORDER BY block is not straight-line code')
+    else:
+        verdict, why, n_paths = True, '', 0
+        for q in ps:
+            st = [(t_, v) for t_, v in q.stores if isinstance(t_, ast.Subscript) and const_value(t_.slice) == 'reverse']
+            if not st:
+                verdict, why = False, 'a path through the ORDER BY block does not set the reverse flag'
+                break
+            v = st[-1][1]
+            n_paths += 1
+            ct = changed_test(v)
+            if ct == 1:
+                continue
+            if ct == -1 or (isinstance(v, ast.UnaryOp) and isinstance(v.op, ast.Not) and changed_test(v.operand) == 1 and False):
+                verdict, why = False, 'the reverse flag is set to "the text did not change"'
+                break
+            cv = const_value(v)
+            if isinstance(cv, bool):
+                known = None
+                for atom, pol in pathsem.atoms(q.conds):
+                    c_ = changed_test(atom)
+                    if c_:
+                        known = pol if c_ == 1 else not pol
+                if known is None:
+                    verdict, why = None, 'constant flag on a path without the "DESC removed" test'
+                    break
+                if known != cv:
+                    verdict, why = False, 'reverse is {} on the path where a trailing DESC {} removed'.format(cv, 'was' if known else 'was not')
+                    break
+                continue
+            verdict, why = None, 'value stored under reverse not recognised: `{}`'.format(node_text(v, 80))
+            break
+        if verdict is None:
+            rep.undecided('reverse flag', b, why)
+        else:
+            rep.decide(verdict, 'reverse flag', b, 'reverse = True iff a trailing DESC was removed ({} path(s))'.format(n_paths), 'the reverse flag is no longer "True iff a trailing DESC was removed": ' + why)
     if asc and desc:
         rep.decide(asc[0].node.lineno < desc[0].node.lineno, 'ASC before DESC', b, 'ASC removal precedes the DESC test', 'order of ASC/DESC handling changed')
 
